@@ -27,6 +27,8 @@ type SvcOp struct {
 
 func (o SvcOp) String() string {
 	switch o.Kind {
+	case "task-restart":
+		return "task-restart(" + o.Topic + ")"
 	case "restart":
 		return "restart"
 	case "delete-topic":
@@ -47,6 +49,9 @@ func svcAlphabet() []SvcOp {
 	}
 	r = append(r, SvcOp{Kind: "update", Topic: "t2", ID: "a", Level: 2})
 	r = append(r, SvcOp{Kind: "restart"})
+	// a task restarted inside the running process: its alert node closes the topic when it stops and restores it when
+	// it starts again, then looks every ID up with EventState
+	r = append(r, SvcOp{Kind: "task-restart", Topic: "t1"})
 	return r
 }
 
@@ -120,6 +125,16 @@ func runSvc(t *testing.T, c SvcCase) (p *problem, transitions int) {
 					return
 				}
 				delete(model, o.Topic)
+			case "task-restart":
+				if err := env.Alert.CloseTopic(o.Topic); err != nil {
+					p = &problem{"svc-error:close-topic", err.Error()}
+					return
+				}
+				kit.Wait()
+				if err := env.Alert.RestoreTopic(o.Topic); err != nil {
+					p = &problem{"svc-error:restore-topic", fmt.Sprintf("%v after %v: %v", o, c.Ops[:i], err)}
+					return
+				}
 			case "restart":
 				kit.Wait()
 				if err := env.Shutdown(false); err != nil {
@@ -142,6 +157,20 @@ func runSvc(t *testing.T, c SvcCase) (p *problem, transitions int) {
 				p = &problem{kind, fmt.Sprintf("after %v: non-OK event states %q, want %q", ops[:i+1], got, want)}
 				env.Shutdown(true)
 				return
+			}
+			// the single-ID lookup an alert node uses when it (re)starts
+			for tp, ids := range model {
+				for id, l := range ids {
+					if l == 0 {
+						continue
+					}
+					es, ok, err := env.Alert.EventState(tp, id)
+					if err != nil || !ok || int(es.Level) != l {
+						p = &problem{"svc-event-state-lookup", fmt.Sprintf("after %v: EventState(%s,%s) = (level %s, found %v, err %v), recorded level %s", ops[:i+1], tp, id, es.Level, ok, err, alert.Level(l))}
+						env.Shutdown(true)
+						return
+					}
+				}
 			}
 		}
 		env.Shutdown(true)
